@@ -10,7 +10,7 @@ import sys
 import textwrap
 from itertools import chain
 
-from ._utility import _mkdir_p
+from ._utility import _mkdir_p, _nested_dicts_to_dotted_keys
 
 logger = logging.getLogger(__name__)
 
@@ -56,9 +56,13 @@ def create_linked_view(project, prefix=None, job_ids=None, path=None):
     else:
         jobs = list(project.open_job(id=job_id) for job_id in job_ids)
 
-    key_list = [k for job in jobs for k in job.statepoint().keys()]
-    value_list = [v for job in jobs for v in job.statepoint().values()]
-    item_list = key_list + value_list
+    # Keys and values at every nesting level end up in the link paths.
+    item_list = [
+        item
+        for job in jobs
+        for key_value in _nested_dicts_to_dotted_keys(job.statepoint())
+        for item in key_value
+    ]
     bad_items = [item for item in item_list if isinstance(item, str) and os.sep in item]
 
     if any(bad_items):
